@@ -288,6 +288,21 @@ def calc_padding_and_skirt(padding_type, kernel, input_shape, explicit_padding):
     return padding, skirt
 
 
+def calc_transpose_padding_and_skirt(padding_type, kernel_size, input_shape, output_shape):
+    # A transpose convolution with stride 1 is a convolution with the (already flipped) kernel over an IFM that is padded
+    # by kernel size - 1 minus the padding the transpose convolution removes from its output
+    def pad_before_after(kernel, in_size, out_size):
+        removed = max(in_size - 1 + kernel - out_size, 0) if padding_type == Padding.SAME else 0
+        before = kernel - 1 - removed // 2
+        after = out_size + kernel - 1 - before - in_size
+        return before, after
+
+    top_pad, bottom_pad = pad_before_after(int(kernel_size[0]), int(input_shape.height), int(output_shape.height))
+    left_pad, right_pad = pad_before_after(int(kernel_size[1]), int(input_shape.width), int(output_shape.width))
+    padding = (top_pad, left_pad, bottom_pad, right_pad)
+    return padding, padding
+
+
 def calc_upscaled_padding_and_skirt(
     padding_type, kernel_size, stride, input_shape, upscaling_factor_y, upscaling_factor_x
 ):
@@ -995,6 +1010,11 @@ def add_padding_fields(op, arch, nng):
                     input_shape,
                     output_shape.height // input_shape.height,
                     output_shape.width // input_shape.width,
+                )
+            elif op.type == Op.Conv2DBackpropInputSwitchedBias:
+                # Transpose without upscale (stride 1)
+                padding, skirt = calc_transpose_padding_and_skirt(
+                    op.attrs["padding"], kernel_size, input_shape, output_shape
                 )
             else:
                 padding, skirt = calc_padding_and_skirt(
